@@ -5,6 +5,7 @@ package main
 import (
 	"fmt"
 	"net/http"
+	"reflect"
 	"sort"
 	"strconv"
 	"strings"
@@ -511,6 +512,10 @@ func famRoundtrip(o *Out, r R, tier string) {
 				return
 			}
 			k1 := a.Config()
+			// Config() is a read: asked twice in a row (no Reconfigure in between) it gives the same answer
+			if k1b := a.Config(); !reflect.DeepEqual(k1, k1b) {
+				o.emitDirect("roundtrip/config-twice", false, "two successive Config() calls on one middleware differ for "+truncate(str(cfgSX(&c))))
+			}
 			var bm *cors.Middleware
 			reconfOK := true
 			if k1 != nil {
